@@ -88,7 +88,12 @@ def outFmtOf (formatOpt : Option OutFmt) (outputFile : Option Str) : R OutFmt :=
 /-! ### `find_overlapping_fragments` with the scaffolds -/
 
 /-- one reported pair `((f1, s1), (f2, s2))`; of the scaffolds only the name is used (`report_overlaps`) -/
-abbrev OvPair := Fragment × Str × Fragment × Str
+structure OvPair where
+  f1 : Fragment
+  s1 : Str
+  f2 : Fragment
+  s2 : Str
+  deriving DecidableEq, Repr, Inhabited
 
 /-- `all_vs_all_fragments`: `frags.extend((x, scffld) for x in scffld.fragments())` over the scaffolds -/
 def Assembly.fragmentsWithScaffold (a : Assembly) : List (Fragment × Str) :=
@@ -98,7 +103,7 @@ def Assembly.fragmentsWithScaffold (a : Assembly) : List (Fragment × Str) :=
     `overlappingPairs` (Model/Basic.lean) carrying the scaffold names along -/
 def overlappingPairsNamed : List (Fragment × Str) → List OvPair
   | [] => []
-  | f :: r => ((r.filter (fun g => f.1.overlaps g.1)).map (fun g => (f.1, f.2, g.1, g.2))) ++ overlappingPairsNamed r
+  | f :: r => ((r.filter (fun g => f.1.overlaps g.1)).map (fun g => ({ f1 := f.1, s1 := f.2, f2 := g.1, s2 := g.2 } : OvPair))) ++ overlappingPairsNamed r
 
 /-- `asm.find_overlapping_fragments()`; `[]` stands for Python's `None` (`over_pairs if over_pairs else None`) -/
 def findOverlappingFragments (a : Assembly) : List OvPair := overlappingPairsNamed a.fragmentsWithScaffold
@@ -116,9 +121,9 @@ def fragmentStr (f : Fragment) : R Str := do
 
 /-- one `click.echo(f"\nOverlap:\n{s1.name} {f1}\n{s2.name} {f2}", err=True)` -/
 def overlapText (p : OvPair) : R Str := do
-  let t1 ← fragmentStr p.1
-  let t2 ← fragmentStr p.2.2.1
-  pure ("\nOverlap:\n".toList ++ p.2.1 ++ [' '] ++ t1 ++ ['\n'] ++ p.2.2.2 ++ [' '] ++ t2 ++ ['\n'])
+  let t1 ← fragmentStr p.f1
+  let t2 ← fragmentStr p.f2
+  pure ("\nOverlap:\n".toList ++ p.s1 ++ [' '] ++ t1 ++ ['\n'] ++ p.s2 ++ [' '] ++ t2 ++ ['\n'])
 
 /-- `report_overlaps(asm_name, pairs)` (called only for a non-empty list) -/
 def reportOverlapsText (asmName : Str) (pairs : List OvPair) : R Str := do
@@ -226,14 +231,13 @@ def asmFormat (o : AsmFormatOpts) (files : List (Str × List Str)) (stdin : List
 /-! ### from file content to lines -/
 
 /-- text mode with `newline=None` (what `pth.open("r")` gives): `"\r\n"` → `"\n"`, a lone `"\r"` → `"\n"` -/
-def universalNewlines : Str → Str
-  | [] => []
-  | c :: cs =>
-    if c = '\r' then
-      match cs with
-      | d :: ds => if d = '\n' then '\n' :: universalNewlines ds else '\n' :: universalNewlines cs
-      | [] => ['\n']
-    else c :: universalNewlines cs
+def universalNewlinesGo : Bool → Str → Str
+  | _, [] => []
+  | afterCR, c :: cs =>
+    if c = '\r' then '\n' :: universalNewlinesGo true cs          -- every "\r" gives a "\n" …
+    else if c = '\n' ∧ afterCR = true then universalNewlinesGo false cs   -- … and a "\n" right behind it is swallowed
+    else c :: universalNewlinesGo false cs
+def universalNewlines (s : Str) : Str := universalNewlinesGo false s
 
 /-- the lines iteration over an input FILE yields -/
 def fileLines (content : Str) : List Str := pyLines (universalNewlines content)
@@ -254,6 +258,14 @@ def asmFormatText (o : AsmFormatOpts) (files : List (Str × Str)) (stdin : Str) 
       cr.agp  = "s1\t1\t5\t1\tW\tc\rd\t1\t5\t+\r\ns1\t6\t9\t2\tW\te\t1\t4\t-\r" -/
 section Tests
 
+/-- only so that the tests below can be closed by `decide` -/
+private instance instDecEqExceptAsmFormatTests {ε α} [DecidableEq ε] [DecidableEq α] : DecidableEq (Except ε α) := fun a b =>
+  match a, b with
+  | .ok x, .ok y => if h : x = y then isTrue (by rw [h]) else isFalse (fun e => h (by cases e; rfl))
+  | .error x, .error y => if h : x = y then isTrue (by rw [h]) else isFalse (fun e => h (by cases e; rfl))
+  | .ok _, .error _ => isFalse (fun e => by cases e)
+  | .error _, .ok _ => isFalse (fun e => by cases e)
+
 private def AGP1 : List Str :=
   ["s1\t1\t5\t1\tW\tc\t1\t5\t+\ts1\n".toList, "s1\t6\t8\t2\tU\t3\tscaffold\tyes\tproximity_ligation\n".toList,
    "s1\t9\t12\t3\tW\tc\t4\t7\t-\n".toList, "s2\t1\t3\t1\tW\tc\t5\t7\t?\n".toList]
@@ -271,7 +283,7 @@ private def fA : Fragment := { oid := 0, name := ['c'], start := 1, stop := 5, s
 private def fB : Fragment := { oid := 1, name := ['c'], start := 4, stop := 7, strand := -1 }
 private def fC : Fragment := { oid := 2, name := ['c'], start := 5, stop := 7, strand := 0 }
 private def PAIRS1 : List OvPair :=
-  [(fA, "s1".toList, fB, "s1".toList), (fA, "s1".toList, fC, "s2".toList), (fB, "s1".toList, fC, "s2".toList)]
+  [⟨fA, "s1".toList, fB, "s1".toList⟩, ⟨fA, "s1".toList, fC, "s2".toList⟩, ⟨fB, "s1".toList, fC, "s2".toList⟩]
 
 -- in_fmt:  `asm-format c.txt` parses AGP;  `asm-format b.tpf` parses TPF;  `asm-format d.fa`:
 --   ValueError("Error processing file 'd.fa'") from ValueError("Unknown input format: 'FASTA'");
@@ -294,56 +306,59 @@ example : outFmtOf none (some "o.tpf".toList) = .ok .TPF ∧ outFmtOf none (some
 
 -- `asm-format a.agp` prints a.agp unchanged;  `asm-format a.agp -f tpf` prints AGP1asTpf;
 -- `asm-format a.agp --qc-overlaps` prints a.agp and reports three pairs (STDERR below)
-example : processFh .AGP ['a'] AGP1 (some .AGP) false = .ok (AGP1.flatten, []) := by decide
-example : processFh .AGP ['a'] AGP1 (some .TPF) false = .ok (AGP1asTpf, []) := by decide
-example : processFh .AGP ['a'] AGP1 (some .AGP) true = .ok (AGP1.flatten, PAIRS1) := by decide
--- `asm-format b.tpf` prints TPF1asAgp;  `asm-format b.tpf -i AGP`: ValueError(…) from IndexError
-example : processFh .TPF ['b'] TPF1 (some .AGP) true = .ok (TPF1asAgp, []) := by decide
-example : processFh .AGP ['b'] TPF1 (some .AGP) false = .error .index := by decide
+example : processFh .AGP ['a'] AGP1 (some .AGP) false = .ok (AGP1.flatten, []) := by decide +kernel
+example : processFh .AGP ['a'] AGP1 (some .TPF) false = .ok (AGP1asTpf, []) := by decide +kernel
+example : processFh .AGP ['a'] AGP1 (some .AGP) true = .ok (AGP1.flatten, PAIRS1) := by decide +kernel
+-- `asm-format b.tpf` prints TPF1asAgp (`--qc-overlaps` reports the one pair: "s1 c:1-5(+)" / "s1 c:4-7(-)");
+-- `asm-format b.tpf -i AGP`: ValueError(…) from IndexError
+example : processFh .TPF ['b'] TPF1 (some .AGP) false = .ok (TPF1asAgp, []) := by decide +kernel
+example : processFh .TPF ['b'] TPF1 (some .AGP) true = .ok (TPF1asAgp, [⟨{ fA with tags := [] }, "s1".toList, fB, "s1".toList⟩]) := by
+  decide +kernel
+example : processFh .AGP ['b'] TPF1 (some .AGP) false = .error .index := by decide +kernel
 -- `asm-format -i tpf < a.agp`: ValueError("Wrong field count 10; 4 expected …")
-example : processFh .TPF "stdin".toList AGP1 (some .AGP) false = .error .value := by decide
+example : processFh .TPF "stdin".toList AGP1 (some .AGP) false = .error .value := by decide +kernel
 
 -- STDERR of `asm-format a.agp --qc-overlaps`:
 example : reportOverlapsText ['a'] PAIRS1 =
     .ok ("\nOverlaps detected in assembly 'a'\n" ++
          "\nOverlap:\ns1 c:1-5(+) s1\ns1 c:4-7(-)\n" ++
          "\nOverlap:\ns1 c:1-5(+) s1\ns2 c:5-7(.)\n" ++
-         "\nOverlap:\ns1 c:4-7(-)\ns2 c:5-7(.)\n").toList := by decide
+         "\nOverlap:\ns1 c:4-7(-)\ns2 c:5-7(.)\n").toList := by decide +kernel
 
 -- `asm-format a.agp b.tpf` prints a.agp followed by TPF1asAgp
 example : asmFormat {} [("a.agp".toList, AGP1), ("b.tpf".toList, TPF1)] [] =
-    { written := AGP1.flatten ++ TPF1asAgp } := by decide
+    { written := AGP1.flatten ++ TPF1asAgp } := by decide +kernel
 -- `asm-format a.agp bad.agp b.tpf -o m.agp`: ValueError("Error processing file 'bad.agp'") from IndexError;
 --   m.agp holds the output for a.agp only
 example : asmFormat { outputFile := some "m.agp".toList } [("a.agp".toList, AGP1), ("bad.agp".toList, BAD), ("b.tpf".toList, TPF1)] [] =
-    { written := AGP1.flatten, error := some .value } := by decide
+    { written := AGP1.flatten, error := some .value } := by decide +kernel
 -- `asm-format < bad.agp`: IndexError (not wrapped);  `asm-format -o o3.fa < a.agp`: ValueError("Unknown output format"), o3.fa empty;
 -- `asm-format -o o4.fa < bad.agp`: IndexError (the parse error comes first)
-example : asmFormat {} [] BAD = { error := some .index } := by decide
-example : asmFormat { outputFile := some "o3.fa".toList } [] AGP1 = { error := some .value } := by decide
-example : asmFormat { outputFile := some "o4.fa".toList } [] BAD = { error := some .index } := by decide
+example : asmFormat {} [] BAD = { error := some .index } := by decide +kernel
+example : asmFormat { outputFile := some "o3.fa".toList } [] AGP1 = { error := some .value } := by decide +kernel
+example : asmFormat { outputFile := some "o4.fa".toList } [] BAD = { error := some .index } := by decide +kernel
 -- `asm-format a.agp -o o5.fa --qc-overlaps`: the overlap report for 'a' IS printed, then ValueError; o5.fa empty
 example : asmFormat { outputFile := some "o5.fa".toList, qcOverlaps := true } [("a.agp".toList, AGP1)] [] =
-    { reports := [(['a'], PAIRS1)], error := some .value } := by decide
+    { reports := [(['a'], PAIRS1)], error := some .value } := by decide +kernel
 -- `asm-format ip.agp -o ip.agp` (ip.agp = a.agp): exit 0, ip.agp is EMPTY afterwards;
 -- `asm-format a.agp ip.agp -o ip.agp`: ip.agp holds the output for a.agp only
-example : asmFormat { outputFile := some "ip.agp".toList } [("ip.agp".toList, AGP1)] [] = {} := by decide
+example : asmFormat { outputFile := some "ip.agp".toList } [("ip.agp".toList, AGP1)] [] = {} := by decide +kernel
 example : asmFormat { outputFile := some "ip.agp".toList } [("a.agp".toList, AGP1), ("ip.agp".toList, AGP1)] [] =
-    { written := AGP1.flatten } := by decide
+    { written := AGP1.flatten } := by decide +kernel
 -- assembly name: `asm-format a.agp --qc-overlaps` says 'a', `-n X` says 'X', `-n ""` says 'a', STDIN says 'stdin'
 example : asmNameOf none "a.agp".toList = ['a'] ∧ asmNameOf (some ['X']) "a.agp".toList = ['X'] ∧
     asmNameOf (some []) "a.agp".toList = ['a'] := by decide
-example : (asmFormat { qcOverlaps := true } [] AGP1).reports = [("stdin".toList, PAIRS1)] := by decide
+example : (asmFormat { qcOverlaps := true } [] AGP1).reports = [("stdin".toList, PAIRS1)] := by decide +kernel
 -- `--format str`: the placeholder
-example : (asmFormat { format := some .STR } [("a.agp".toList, AGP1)] []).written = strMarker := by decide
+example : (asmFormat { format := some .STR } [("a.agp".toList, AGP1)] []).written = strMarker := by decide +kernel
 
 -- universal newlines: `asm-format cr.agp` fails (the line is cut at the "\r" inside the name: IndexError, wrapped),
 --   `asm-format < cr.agp` prints "s1\t1\t5\t1\tW\tc\rd\t1\t5\t+\ns1\t6\t9\t2\tW\te\t1\t4\t-\n"
 private def CR : Str := "s1\t1\t5\t1\tW\tc\rd\t1\t5\t+\r\ns1\t6\t9\t2\tW\te\t1\t4\t-\r".toList
-example : fileLines CR = ["s1\t1\t5\t1\tW\tc\n".toList, "d\t1\t5\t+\n".toList, "s1\t6\t9\t2\tW\te\t1\t4\t-\n".toList] := by decide
-example : asmFormatText {} [("cr.agp".toList, CR)] [] = { error := some .value } := by decide
+example : fileLines CR = ["s1\t1\t5\t1\tW\tc\n".toList, "d\t1\t5\t+\n".toList, "s1\t6\t9\t2\tW\te\t1\t4\t-\n".toList] := by decide +kernel
+example : asmFormatText {} [("cr.agp".toList, CR)] [] = { error := some .value } := by decide +kernel
 example : asmFormatText {} [] CR =
-    { written := "s1\t1\t5\t1\tW\tc\rd\t1\t5\t+\ns1\t6\t9\t2\tW\te\t1\t4\t-\n".toList } := by decide
+    { written := "s1\t1\t5\t1\tW\tc\rd\t1\t5\t+\ns1\t6\t9\t2\tW\te\t1\t4\t-\n".toList } := by decide +kernel
 
 end Tests
 
